@@ -104,7 +104,6 @@ const sortAlphabet = "aAbB"
 // charBase is the first character of the string alphabet (b..e; a and f serve as items outside it).
 const charBase = 'b'
 
-
 // elem is element i (value v) of a sequence of the given kind.
 func (c Case) elem(kind string, v, idx int) V {
 	switch {
@@ -1148,7 +1147,7 @@ func runSet(c Case) *h.Result {
 	for _, it := range items {
 		in[sx.Text(it)]++
 	}
-	avail := map[string]int{}   // how often a text occurs in the arguments
+	avail := map[string]int{}    // how often a text occurs in the arguments
 	allowed := map[string]bool{} // texts that may occur in the result
 	must := map[string]bool{}    // texts that must occur
 	valOf := map[string]int{}    // text -> element value
@@ -1627,5 +1626,3 @@ var exclusions = []exclusion{
 		return false
 	}},
 }
-
-var _ = testing.Short
